@@ -43,22 +43,28 @@ func sameArgs(got []string, err error, want ...string) bool {
 	return ok
 }
 
-// H_shell_dq1: Parse(dq(a)) == [a] for every argument of <= 3 runes.
-func H_shell_dq1() {
-	a := ndArg("a", 3)
+func shellDq1(n int) {
+	a := ndArg("a", n)
 	got, err := Parse(dq(a))
 	nd_assert(sameArgs(got, err, a), "C17.shell.dq")
 	nd_reach("C17.shell.dq1")
 }
 
-// H_shell_dq2: two arguments of <= 2 and <= 1 runes joined by one space.
-func H_shell_dq2() {
-	a := ndArg("a", 2)
-	b := ndArg("b", 1)
+func shellDq2(n, m int) {
+	a := ndArg("a", n)
+	b := ndArg("b", m)
 	got, err := Parse(dq(a) + " " + dq(b))
 	nd_assert(sameArgs(got, err, a, b), "C17.shell.dq")
 	nd_reach("C17.shell.dq2")
 }
+
+// Parse(dq(a)) == [a] for every argument of <= 2 (quick) / 3 (thorough) runes
+func H_shell_dq1_2() { shellDq1(2) }
+func H_shell_dq1_3() { shellDq1(3) }
+
+// two arguments joined by one space
+func H_shell_dq2_11() { shellDq2(1, 1) }
+func H_shell_dq2_21() { shellDq2(2, 1) }
 
 // H_shell_sq: single-quote form for arguments without a single quote.
 func H_shell_sq() {
